@@ -121,61 +121,6 @@ Definition py_ediv (a b : pval) : pres :=
   | _, _ => PErr
   end.
 
-(* Python's < on str restricted to ASCII *)
-Fixpoint bytes_ltb (a b : bytes) : bool :=
-  match a, b with
-  | _, [] => false
-  | [], _ :: _ => true
-  | x :: r, y :: s =>
-      if (Byte.to_N x <? Byte.to_N y)%N then true
-      else if (Byte.to_N x =? Byte.to_N y)%N then bytes_ltb r s
-      else false
-  end.
-
-(* __eq__ of the value classes (IntType.__eq__ accepts any IntType subclass; UnitType.__eq__ as repaired:
-   isinstance check; mixed classes compare unequal) *)
-Fixpoint py_eq (a b : pval) {struct a} : bool :=
-  match a, b with
-  | PInt x, PInt y | PInt x, PNat y | PNat x, PInt y | PNat x, PNat y => (x =? y)%Z
-  | PMutez x, PMutez y | PTimestamp x, PTimestamp y => (x =? y)%Z
-  | PAddress x, PAddress y | PChainId x, PChainId y => bytes_eqb x y
-  | PStr x, PStr y => bytes_eqb x y
-  | PBytes x, PBytes y => bytes_eqb x y
-  | PBool x, PBool y => Bool.eqb x y
-  | PUnit, PUnit => true
-  | PPair a1 a2, PPair b1 b2 => py_eq a1 b1 && py_eq a2 b2
-  | PNone _, PNone _ => true
-  | PSome x, PSome y => py_eq x y
-  | PLeft x _, PLeft y _ => py_eq x y
-  | PRight _ x, PRight _ y => py_eq x y
-  | PList _ l1, PList _ l2 =>
-      (fix go (l1 l2 : list pval) : bool :=
-         match l1, l2 with
-         | [], [] => true
-         | x :: r1, y :: r2 => py_eq x y && go r1 r2
-         | _, _ => false
-         end) l1 l2
-  | _, _ => false
-  end.
-
-(* __lt__ of the value classes; non-comparable classes inherit MichelsonType.__lt__ which returns None (falsy) *)
-Fixpoint py_lt (a b : pval) {struct a} : bool :=
-  match a, b with
-  | PInt x, PInt y | PInt x, PNat y | PNat x, PInt y | PNat x, PNat y => (x <? y)%Z
-  | PMutez x, PMutez y | PTimestamp x, PTimestamp y => (x <? y)%Z
-  | PStr x, PStr y => bytes_ltb x y
-  | PBytes x, PBytes y => bytes_ltb x y
-  | PBool x, PBool y => negb x && y
-  | PPair a1 a2, PPair b1 b2 =>
-      if py_eq a1 b1 then (if py_eq a2 b2 then false else py_lt a2 b2) else py_lt a1 b1
-  | PNone _, PSome _ => true
-  | PSome x, PSome y => py_lt x y
-  | PLeft _ _, PRight _ _ => true
-  | PLeft x _, PLeft y _ => py_lt x y
-  | PRight _ x, PRight _ y => py_lt x y
-  | _, _ => false
-  end.
-
 (* instructions/compare.py: compare(a, b) *)
 Definition py_compare (a b : pval) : Z :=
   if py_eq a b then 0%Z else if py_lt a b then (-1)%Z else 1%Z.
@@ -276,6 +221,40 @@ Definition py_update_comb (k : nat) (x v : pval) : option pval :=
   else if Nat.odd k then py_from_comb (replace_nth (Nat.div2 k) x (py_spine v))
   else py_from_comb (firstn (Nat.div2 k) (py_spine v) ++ py_spine x).
 
+(* ---- types/set.py, types/map.py (entries are written PPair key value) ---- *)
+(* sorted(items + [x]) for x not in items: x goes before the first greater element *)
+Fixpoint py_insert (x : pval) (l : list pval) : list pval :=
+  match l with
+  | [] => [x]
+  | y :: r => if py_lt x y then x :: y :: r else y :: py_insert x r
+  end.
+Fixpoint py_insert_entry (k v : pval) (l : list pval) : list pval :=
+  match l with
+  | [] => [PPair k v]
+  | y :: r => if py_lt k (py_key y) then PPair k v :: y :: r else y :: py_insert_entry k v r
+  end.
+(* SetType.add / remove (after `self.args[0].assert_type_equal(type(item))`) *)
+Definition py_set_contains (x : pval) (l : list pval) : bool := existsb (fun y => py_eq x y) l.
+Definition py_set_add (x : pval) (l : list pval) : list pval := if py_set_contains x l then l else py_insert x l.
+Definition py_set_remove (x : pval) (l : list pval) : list pval :=
+  if py_set_contains x l then filter (fun y => negb (py_eq y x)) l else l.
+(* MapType.get: next((v for k, v in items if k == key), None) *)
+Fixpoint py_map_get (k : pval) (l : list pval) : option pval :=
+  match l with
+  | [] => None
+  | PPair k' v :: r => if py_eq k' k then Some v else py_map_get k r
+  | _ :: r => py_map_get k r
+  end.
+(* MapType.update(key, val) -> items of the new map *)
+Definition py_map_update (k : pval) (ov : option pval) (l : list pval) : list pval :=
+  match py_map_get k l, ov with
+  | Some _, Some v => map (fun y => if negb (py_eq (py_key y) k) then y else PPair (py_key y) v) l
+  | Some _, None => filter (fun y => negb (py_eq (py_key y) k)) l
+  | None, Some v => py_insert_entry k v l
+  | None, None => l
+  end.
+Definition py_opt (t : ty) (o : option pval) : pval := match o with Some v => PSome v | None => PNone t end.
+
 Definition py_simple (e : env) (i : instr) : option (nat * (list pval -> pres)) :=
   match i with
   | I_SWAP => Some (2, fun a => match a with [x; y] => POk [y; x] | _ => PErr end)
@@ -303,13 +282,45 @@ Definition py_simple (e : env) (i : instr) : option (nat * (list pval -> pres)) 
   | I_NONE t => Some (0, fun _ => POk [PNone t])
   | I_UNIT => Some (0, fun _ => POk [PUnit])
   | I_NIL t => Some (0, fun _ => POk [PList t []])
+  | I_EMPTY_SET k => Some (0, fun _ => POk [PSet k []])
+  | I_EMPTY_MAP k v => Some (0, fun _ => POk [PMap k v []])
+  | I_MEM => Some (2, fun a => match a with
+                               | [x; PSet t l] => if ty_eqb t (rt_type x) then POk [PBool (py_set_contains x l)] else PErr
+                               | [x; PMap kt _ l] =>
+                                   if ty_eqb kt (rt_type x)
+                                   then POk [PBool (match py_map_get x l with Some _ => true | None => false end)] else PErr
+                               | _ => PErr
+                               end)
+  | I_GET => Some (2, fun a => match a with
+                               | [x; PMap kt vt l] => if ty_eqb kt (rt_type x) then POk [py_opt vt (py_map_get x l)] else PErr
+                               | _ => PErr
+                               end)
+  | I_UPDATE => Some (3, fun a => match a with
+                                  | [x; PBool b; PSet t l] =>
+                                      if ty_eqb t (rt_type x) then POk [PSet t (if b then py_set_add x l else py_set_remove x l)] else PErr
+                                  | [x; PNone _; PMap kt vt l] =>
+                                      if ty_eqb kt (rt_type x) then POk [PMap kt vt (py_map_update x None l)] else PErr
+                                  | [x; PSome v; PMap kt vt l] =>
+                                      if ty_eqb kt (rt_type x) then POk [PMap kt vt (py_map_update x (Some v) l)] else PErr
+                                  | _ => PErr
+                                  end)
+  | I_GET_AND_UPDATE =>
+      Some (3, fun a => match a with
+                        | [x; PNone _; PMap kt vt l] =>
+                            if ty_eqb kt (rt_type x)
+                            then POk [py_opt vt (py_map_get x l); PMap kt vt (py_map_update x None l)] else PErr
+                        | [x; PSome v; PMap kt vt l] =>
+                            if ty_eqb kt (rt_type x)
+                            then POk [py_opt vt (py_map_get x l); PMap kt vt (py_map_update x (Some v) l)] else PErr
+                        | _ => PErr
+                        end)
   | I_CONS => Some (2, fun a => match a with
                                 | [x; PList t l] => if ty_eqb t (rt_type x) then POk [PList t (x :: l)] else PErr
                                 | _ => PErr
                                 end)
   | I_SIZE => Some (1, fun a => match a with
                                 | [PStr s] | [PBytes s] => POk [PNat (Z.of_nat (length s))]
-                                | [PList _ l] => POk [PNat (Z.of_nat (length l))]
+                                | [PList _ l] | [PSet _ l] | [PMap _ _ l] => POk [PNat (Z.of_nat (length l))]
                                 | _ => PErr
                                 end)
   | I_ADD => Some (2, fun a => match a with [x; y] => py_arith Z.add add_kind x y | _ => PErr end)
@@ -422,6 +433,25 @@ Fixpoint py_map (run : pstack -> poutcome) (l : list pval) (st : pstack) : pmapr
   end.
 
 (* ListType.from_items (items non-empty): the class comes from the first item, the others are checked against it *)
+(* MapType.from_items (items non-empty): classes from the first entry, the others checked, then check_constraints *)
+Definition map_from_items (entries : list pval) : option pval :=
+  match entries with
+  | PPair k v :: r =>
+      if forallb (fun x => match x with
+                           | PPair k' v' => ty_eqb (rt_type k) (rt_type k') && ty_eqb (rt_type v) (rt_type v')
+                           | _ => false
+                           end) r
+         && py_strict_sorted (map py_key entries)
+      then Some (PMap (rt_type k) (rt_type v) entries) else None
+  | _ => None
+  end.
+(* items.append((elt.items[0], new_elt)) *)
+Fixpoint py_rekey (entries ys : list pval) : list pval :=
+  match entries, ys with
+  | x :: r, y :: s => PPair (py_key x) y :: py_rekey r s
+  | _, _ => []
+  end.
+
 Definition list_from_items (ys : list pval) : option pval :=
   match ys with
   | [] => None
@@ -534,7 +564,7 @@ Fixpoint py_eval (e : env) (fuel : nat) (i : instr) (st : pstack) {struct fuel} 
           end
       | I_ITER c =>
           match pop1 st with
-          | Some (PList _ l, st1) => py_iter (py_eval e f c) l st1
+          | Some (PList _ l, st1) | Some (PSet _ l, st1) | Some (PMap _ _ l, st1) => py_iter (py_eval e f c) l st1
           | _ => PError
           end
       | I_MAP c =>
@@ -545,6 +575,18 @@ Fixpoint py_eval (e : env) (fuel : nat) (i : instr) (st : pstack) {struct fuel} 
                   match ys with
                   | [] => PDone (push (PList t l) st2)     (* res = src  # TODO: need to deduce argument types *)
                   | _ => match list_from_items ys with
+                         | Some res => PDone (push res st2)
+                         | None => PError
+                         end
+                  end
+              | PMStop o => o
+              end
+          | Some (PMap kt vt l, st1) =>
+              match py_map (py_eval e f c) l st1 with
+              | PMDone ys st2 =>
+                  match ys with
+                  | [] => PDone (push (PMap kt vt l) st2)     (* res = src *)
+                  | _ => match map_from_items (py_rekey l ys) with
                          | Some res => PDone (push res st2)
                          | None => PError
                          end
